@@ -3,6 +3,9 @@ package main
 import (
 	"context"
 	"fmt"
+	"os"
+	"path/filepath"
+	"strconv"
 	"strings"
 	"time"
 
@@ -66,7 +69,19 @@ func runPos(c *Case) Verdict {
 		err   error
 	}
 	var results []result
-	for _, route := range []string{"form-by-form", "one-do"} {
+	// module names as the header line / load-file carry them: whatever follows "$MODULE " up to the end of the line
+	headerModule := "my project/" + c.Module + " v2.lisp"
+	tmpDir, terr := os.MkdirTemp("", "pos mod ")
+	if terr != nil {
+		return Verdict{Verdict: "infra", Note: terr.Error()}
+	}
+	defer os.RemoveAll(tmpDir)
+	filePath := filepath.Join(tmpDir, c.Module+" file.lisp")
+	if werr := os.WriteFile(filePath, []byte(c.Text), 0o644); werr != nil {
+		return Verdict{Verdict: "infra", Note: werr.Error()}
+	}
+	wantModule := map[string]string{"form-by-form": c.Module, "one-do": c.Module, "header": headerModule, "load-file": filePath}
+	for _, route := range []string{"form-by-form", "one-do", "header", "load-file"} {
 		ns, _, err := NewLoadedEnv()
 		if err != nil {
 			return Verdict{Verdict: "infra", Note: err.Error()}
@@ -74,6 +89,25 @@ func runPos(c *Case) Verdict {
 		var eerr error
 		kind, site, msg := guarded(20*time.Second, func() {
 			ctx := context.Background()
+			if route == "header" {
+				// no cursor module: the reader takes the name from the header line
+				ast, rerr := lisp.READ(";; $MODULE "+headerModule+"\n(do "+c.Text+"\n)", nil, ns)
+				if rerr != nil {
+					eerr = fmt.Errorf("INFRA read: %w", rerr)
+					return
+				}
+				_, eerr = lisp.EVAL(ctx, ast, ns)
+				return
+			}
+			if route == "load-file" {
+				ast, rerr := lisp.READ("(load-file "+strconv.Quote(filePath)+")", nil, ns)
+				if rerr != nil {
+					eerr = fmt.Errorf("INFRA read: %w", rerr)
+					return
+				}
+				_, eerr = lisp.EVAL(ctx, ast, ns)
+				return
+			}
 			if route == "one-do" {
 				ast, rerr := lisp.READ("(do "+c.Text+"\n)", types.NewCursorFile(c.Module), ns)
 				if rerr != nil {
@@ -121,8 +155,15 @@ func runPos(c *Case) Verdict {
 		}
 		p := pe.Position()
 		bad := ""
+		// rows count the lines of the text handed to the reader: in the header route the header is its first line, and
+		// load-file builds exactly such a text (";; $MODULE <path>\n(do <file>\nnil)": a file's line n is row n + 1)
+		off := 0
+		if r.route == "header" || r.route == "load-file" {
+			off = 1
+		}
+		p = &types.Position{Module: p.Module, BeginRow: p.BeginRow - off, BeginCol: p.BeginCol, Row: p.Row - off, Col: p.Col}
 		switch {
-		case p.Module == nil || *p.Module != c.Module:
+		case p.Module == nil || *p.Module != wantModule[r.route]:
 			bad = "module"
 		case p.BeginRow < c.TopBegin:
 			bad = "begins-before-top-level-form"
